@@ -23,3 +23,7 @@ def run(tier):
     chk.assumptions = ["width-1 composite regions do not compile with serialization and are excluded (compile-time limit of the library)",
                        "plans, history and pending marks are not part of the serialized state and are not compared"]
     return chk
+
+
+def replay(path):
+    return en.replay(path)
